@@ -1325,7 +1325,9 @@ impl CodeGenerator {
             IRNode::Join { .. } => true,
             IRNode::Distinct { input } => Self::contains_join(input),
             IRNode::Union { inputs } => inputs.iter().any(Self::contains_join),
-            IRNode::Aggregate { input, .. } => Self::contains_join(input),
+            // An aggregate combines tuples across partitions (a per-partition count,
+            // sum or min is not the group's): never run it on partitioned input.
+            IRNode::Aggregate { .. } => true,
             IRNode::Antijoin { .. } => true, // Antijoin is also a join-like operation
             IRNode::Compute { input, .. } => Self::contains_join(input),
             IRNode::FlatMap { input, .. } => Self::contains_join(input),
